@@ -11,7 +11,8 @@
       it is reached through a link;
     * the search context of a file: `include_dirs[0]` = first of these, `own_dirs` = the rest;
       an include is searched in `[first] ++ own ++ -I directories` (`_find`);
-    * `_process_file`: the base name must stand for one real file (`SameNameError`); results are
+    * `_process_file`: the base name must stand for one real file (`SameNameError`) and a file is used under one
+      base name (`TwoNamesError`: the outputs are named after it); results are
       cached by real path (`None` = in progress = cycle marker); on a cache hit `_same_includes`
       compares, from the path used now, the includes of the file (and of the includes reached
       through another path than before) with what was found when it was parsed
@@ -74,6 +75,7 @@ inductive Err
   | sameName (leaf : String)
   | ambiguous (p : Path) (leaf : String)
   | tooDeep (p : Path)
+  | twoNames (p : Path)
   deriving DecidableEq, Repr
 
 /-- as `Files.Result`: the names a file makes visible to its includer, the names visible inside
@@ -95,6 +97,7 @@ def depthLimit : Nat := 64
 structure State where
   cache : List (Path × Option Result) := []               -- `self.files`, keyed by real path
   names : List (String × Path) := []                       -- `self.names`: leaf of the given path -> real path
+  nameOf : List (Path × String) := []                      -- `self.name_of`: real path -> the leaf it is used under
   includesOf : List (Path × List (String × Option Path)) := []   -- `self.includes_of`
   heights : List (Path × Nat) := []                        -- `self.heights`
   verified : List (Path × List String) := []               -- `self.verified`
@@ -136,8 +139,15 @@ mutual
       | some r =>
         -- `if self.names.setdefault(name, abspath) != abspath: raise SameNameError`
         match st.names.lookup p.leaf with
-        | some q => if q ≠ r then .error (.sameName p.leaf) else processKnown fs incs fuel st p r
-        | none => processKnown fs incs fuel { st with names := (p.leaf, r) :: st.names } p r
+        | some q => if q ≠ r then .error (.sameName p.leaf) else processNamed fs incs fuel st p r
+        | none => processNamed fs incs fuel { st with names := (p.leaf, r) :: st.names } p r
+  /-- `if self.name_of.setdefault(abspath, name) != name: raise TwoNamesError`: a file is used under one base name -/
+  def processNamed (fs : FS) (incs : List String) : Nat → State → Path → Path → Except Err (Result × State)
+    | 0, _, p, _ => .error (.cyclic p)
+    | fuel + 1, st, p, r =>
+      match st.nameOf.lookup r with
+      | some l => if l ≠ p.leaf then .error (.twoNames p) else processKnown fs incs fuel st p r
+      | none => processKnown fs incs fuel { st with nameOf := (r, p.leaf) :: st.nameOf } p r
   /-- the rest of `_process_file` once the name is registered -/
   def processKnown (fs : FS) (incs : List String) : Nat → State → Path → Path → Except Err (Result × State)
     | 0, _, p, _ => .error (.cyclic p)
@@ -187,10 +197,10 @@ mutual
 end
 
 /-- enough fuel for every run of a file system whose files name each include once: each level of recursion enters a
-    file that is not in progress (at most `entries` of them, three calls per level) and walking the includes of a file
+    file that is not in progress (at most `entries` of them, four calls per level) and walking the includes of a file
     costs one unit per include.  (A file that includes the same leaf more often than there are entries can exhaust
     it - `C20L.fsTen` - and is then reported as `.cyclic`; the theorems are about runs that succeed.) -/
-def fuelOf (fs : FS) : Nat := 4 * fs.entries.length + 4
+def fuelOf (fs : FS) : Nat := 5 * fs.entries.length + 5
 
 /-- `process_main(path)` for each input in command-line order, one shared FileProcessor -/
 def processMains (fs : FS) (incs : List String) : List Path → State → Except Err (List (Path × Result))
